@@ -115,19 +115,47 @@ pub fn guard_plain<T>(f: impl FnOnce() -> T) -> Outcome<T> {
         Err(p) => Outcome::Panic(panic_msg(p)),
     }
 }
-/// Run a call on a worker thread under panic capture and a watchdog.  A call that does not return
-/// within `secs` is recorded as `Timeout` (the thread is abandoned).
+/// Run a call on THE worker thread under panic capture and a watchdog.  All calls share one long-lived worker thread (so that state a
+/// library keeps per thread -- scratch buffers, caches -- is carried from call to call exactly as in a long-running program); a call
+/// that does not return within `secs` is recorded as `Timeout`, the stuck worker is abandoned and a fresh one serves the next call.
+type Job = Box<dyn FnOnce() + Send + 'static>;
+static WORKER: std::sync::Mutex<Option<mpsc::Sender<Job>>> = std::sync::Mutex::new(None);
+fn spawn_worker() -> mpsc::Sender<Job> {
+    let (tx, rx) = mpsc::channel::<Job>();
+    let _ = std::thread::Builder::new().stack_size(64 << 20).spawn(move || {
+        for job in rx {
+            job();
+        }
+    });
+    tx
+}
 pub fn guard_timed<T: Send + 'static, E: std::fmt::Debug + Send + 'static>(
     secs: u64,
     f: impl FnOnce() -> Result<T, E> + Send + 'static,
 ) -> Outcome<T> {
     let (tx, rx) = mpsc::channel();
-    let _ = std::thread::Builder::new().stack_size(64 << 20).spawn(move || {
+    let mut job: Job = Box::new(move || {
         let r = guard(f);
         let _ = tx.send(r);
     });
+    let mut w = WORKER.lock().unwrap();
+    for _ in 0..2 {
+        if w.is_none() {
+            *w = Some(spawn_worker());
+        }
+        match w.as_ref().unwrap().send(job) {
+            Ok(()) => break,
+            Err(e) => {
+                job = e.0;
+                *w = None;
+            }
+        }
+    }
     match rx.recv_timeout(Duration::from_secs(secs)) {
         Ok(r) => r,
-        Err(_) => Outcome::Timeout,
+        Err(_) => {
+            *w = None;
+            Outcome::Timeout
+        }
     }
 }
